@@ -45,7 +45,9 @@ class RV:
 class Sys:
     def __init__(self, name, Rs, keys, nw=2):
         self.name = name
-        self.rvec = RV(lattice="LAT", iRvec=Rs, shifts_left_red="SL" + name, shifts_right_red="SR" + name)
+        # the centres as every k-derivative uses them (Rvectors.cRvec_shifted) live in the R-vector object
+        self.rvec = RV(lattice="LAT", iRvec=Rs, shifts_left_red=sym_real_array("sl_" + name, (nw, 3)), shifts_right_red=sym_real_array("sr_" + name, (nw, 3)))
+        self.SL, self.SR = self.rvec.shifts_left_red, self.rvec.shifts_right_red
         self._XX_R = {}
         for k in keys:
             tail = (3,) if k == "AA" else ()
@@ -57,6 +59,9 @@ class Sys:
 
     def clear_cached_R(self):
         self.cleared += 1
+
+    def clear_cached_wcc(self):
+        self.cleared_wcc = getattr(self, "cleared_wcc", 0) + 1
 
     def set_pointgroup(self, pointgroup=None):
         self.pg_set = pointgroup
@@ -78,11 +83,12 @@ CASES = {
 
 
 def _init_unit(case):
-    @unit("C26", "SystemInterpolator.__init__+interpolate[%s]" % case, scope="shape:R-sets %s; 2 orbitals; keys Ham, AA (+ one-sided keys)" % (CASES[case],), expect_min=6)
+    @unit("C26", "SystemInterpolator.__init__+interpolate[%s]" % case, scope="shape:R-sets %s; 2 orbitals; keys Ham, AA (+ one-sided keys)" % (CASES[case],), expect_min=6,
+          replay=lambda mv, ob: _replay_real(mv, ob), replay_once=True)
     def _i(U):
         sh = Shim()
         init = U.fn(F, "SystemInterpolator.__init__", globs=dict(np=sh, copy=copy, warnings=warnings, Rvectors=RV), model=False)
-        interp = U.fn(F, "SystemInterpolator.interpolate", globs=dict(np=sh, copy=copy), model=False)
+        interp = U.fn(F, "SystemInterpolator.interpolate", globs=dict(np=sh, copy=copy, Rvectors=RV), model=False)
 
         def body():
             R0, R1 = CASES[case]
@@ -111,7 +117,8 @@ def _init_unit(case):
                             ok = ok and _valid(_ceq(M[(i,) + idx], want))
                 U.ensure("system %s: every old X(R) sits at the slot of its own R, all other slots are zero (Fourier sums unchanged)" % sysn.name, ok)
             U.ensure("R-vector objects rebuilt on the same lattice with each system's own shifts; caches cleared",
-                     A.rvec.lattice == "LAT" and A.rvec.shifts_left_red == "SL0" and B.rvec.shifts_right_red == "SR1" and A.cleared == 1 and B.cleared == 1)
+                     A.rvec.lattice == "LAT" and A.rvec.shifts_left_red is s0.SL and A.rvec.shifts_right_red is s0.SR and B.rvec.shifts_left_red is s1.SL
+                     and B.rvec.shifts_right_red is s1.SR and A.cleared == 1 and B.cleared == 1)
             U.ensure("point group taken from the requested system", me.pointgroup == {1: "PG1", 0: "PG0", -1: None}[usepg])
             U.ensure("the caller's systems are not modified", set(s0._XX_R) == {"Ham", "AA", "SS"} and s0._XX_R["Ham"].shape[0] == len(R0))
             alpha = sreal("alpha")
@@ -123,8 +130,20 @@ def _init_unit(case):
             U.ensure("interpolate(alpha): every matrix entry is (1-alpha) A + alpha B (affine in alpha)", ok)
             U.ensure("interpolate(alpha): centres are (1-alpha) wcc0 + alpha wcc1",
                      all(_valid(lift(new.wannier_centers_cart[i, j]) == (1 - alpha) * A.wannier_centers_cart[i, j] + alpha * B.wannier_centers_cart[i, j]) for i in range(2) for j in range(3)))
+            def shifts_ok(n_, al):
+                rv = n_.rvec
+                ok_ = rv.lattice == "LAT" and [tuple(int(x) for x in r) for r in rv.iRvec] == newR
+                for nm_, a0_, b0_ in (("shifts_left_red", s0.SL, s1.SL), ("shifts_right_red", s0.SR, s1.SR)):
+                    got = getattr(rv, nm_)
+                    ok_ = ok_ and got is not None and rnp.shape(got) == (2, 3)
+                    if ok_:
+                        ok_ = all(_valid(lift(got[i, j]) == (1 - al) * a0_[i, j] + al * b0_[i, j]) for i in range(2) for j in range(3))
+                return ok_
+            U.ensure("interpolate(alpha): the centres used by the k-derivatives (R-vector shifts, left and right) are (1-alpha) of system 0's + alpha of system 1's, on the union R list",
+                     shifts_ok(new, alpha))
             for a_, S_ in ((0.0, A), (1.0, B)):
                 e = interp(me, a_)
+                U.ensure("alpha = %g: R-vector shifts are those of system %s" % (a_, S_.name), shifts_ok(e, a_))
                 okk = all(_valid(_ceq(e._XX_R[key][idx], S_._XX_R[key][idx])) for key in ("Ham", "AA") for idx in rnp.ndindex(*S_._XX_R[key].shape))
                 okk = okk and all(_valid(lift(e.wannier_centers_cart[i, j]) == S_.wannier_centers_cart[i, j]) for i in range(2) for j in range(3))
                 U.ensure("alpha = %g reproduces system %s exactly (matrices and centres)" % (a_, S_.name), okk)
@@ -139,7 +158,7 @@ for _c in CASES:
 @unit("C26", "SystemInterpolatorSOC.interpolate", scope="shape:nspin 1 and 2", expect_min=2)
 def _soc(U):
     base = []
-    f = U.fn(F, "SystemInterpolatorSOC.interpolate", globs=dict(np=rnp, copy=copy, super=lambda: type("S", (), {"interpolate": lambda self_, a: (base.append(a), type("N", (), {})())[1]})()), model=False)
+    f = U.fn(F, "SystemInterpolatorSOC.interpolate", globs=dict(np=rnp, copy=copy, super=lambda: type("S", (), {"interpolate": lambda self_, a: (base.append(a), type("N", (), {"nspin": "nspin of system0 (deep copy)"})())[1]})()), model=False)
 
     def body():
         two = bool(ctx().choose(2, "two spin channels"))
@@ -165,8 +184,8 @@ def _real_endpoints(rng, n):
         with contextlib.redirect_stdout(io.StringIO()), warnings.catch_warnings():
             warnings.simplefilter("ignore")
             lat = rnp.eye(3) * 2.0
-            a = System_R.from_random(num_wann=2, nRvec=7, max_R=1, real_lattice=lat)
-            b = System_R.from_random(num_wann=2, nRvec=19, max_R=2, real_lattice=lat)
+            a = System_R.from_random(num_wann=2, nRvec=7, max_R=1, real_lattice=lat, berry=True)
+            b = System_R.from_random(num_wann=2, nRvec=19, max_R=2, real_lattice=lat, berry=True)
             for s_ in (a, b):
                 for key in list(s_._XX_R.keys()):
                     X = s_.get_R_mat(key)
@@ -185,10 +204,22 @@ def _real_endpoints(rng, n):
                     bad.append("alpha=1 differs from system1 at k")
                 if not rnp.allclose(H(eh, k), 0.5 * (H(a, k) + H(b, k)), atol=1e-12):
                     bad.append("alpha=1/2 is not the mean")
+            from wannierberri.evaluate_k import evaluate_k
+            for al_, ref_ in ((0.0, a), (1.0, b)):
+                e_ = si.interpolate(al_)
+                for q_ in ("energy", "berry_curvature"):
+                    if not rnp.allclose(evaluate_k(e_, k=list(ks[0]), quantities=[q_]), evaluate_k(ref_, k=list(ks[0]), quantities=[q_]), atol=1e-9):
+                        bad.append("evaluate_k %s at alpha=%g differs from that of the endpoint system" % (q_, al_))
         cases += 1
         if bad:
             fails.append(dict(input=dict(seed=seed), clause="endpoints / affine", failed=sorted(set(bad))))
     return dict(cases=cases, failures=fails, distinct=cases)
+
+
+def _replay_real(mv, ob):
+    import random
+    r = _real_endpoints(random.Random(11), 10)
+    return dict(reproduced=bool(r["failures"]), input="installed SystemInterpolator on random 2-band systems with different R-sets and different centres (seeds in `failed`)", failed=r["failures"][:3])
 
 
 Unit("C26", "interpolation endpoints [real systems]", concrete=_real_endpoints,
